@@ -1,7 +1,7 @@
 #!/usr/bin/env python3
 """Self-validation: realistic single-site mutants of /repo, each expected to be caught by the quick tier of the
 named check(s). Usage: python3 selfcheck/mutants.py [ID-filter]   (writes selfcheck/RESULTS.md)
-/repo must be clean; no background job may be rebuilding from /repo meanwhile."""
+Works on a private scratch worktree (/tmp/mutrepo) and a private harness build (/tmp/mutroot): /repo is never touched."""
 import subprocess, sys, os, re, time
 
 M = [
@@ -113,12 +113,12 @@ def sh(cmd, **kw):
 
 def main():
     filt = sys.argv[1] if len(sys.argv) > 1 else ""
-    assert sh("git -C /repo status --short").stdout.strip() == "", "/repo is not clean"
+    sh("git -C /repo worktree remove --force /tmp/mutrepo; git -C /repo worktree prune; git -C /repo worktree add -q --detach /tmp/mutrepo HEAD")
     rows = []
     for n, (ids, f, old, new, desc) in enumerate(M):
         if filt and filt not in ids:
             continue
-        path = "/repo/" + f
+        path = "/tmp/mutrepo/" + f
         src = open(path).read()
         if old not in src:
             rows.append((n, ids, f, desc, "MUTATION DOES NOT APPLY", ""))
@@ -131,20 +131,22 @@ def main():
             mutated = mutated.replace(a, b, 1)
         open(path, "w").write(mutated)
         try:
-            b = sh("cd /repo && go build ./... 2>&1 && go vet -vet=off . >/dev/null 2>&1; go build ./...", env=dict(os.environ, GOFLAGS="-mod=mod", GOPROXY="off", GOSUMDB="off", GOTOOLCHAIN="local"))
+            b = sh("cd /tmp/mutrepo && go build ./... 2>&1", env=dict(os.environ, GOFLAGS="-mod=mod", GOPROXY="off", GOSUMDB="off", GOTOOLCHAIN="local"))
             if b.returncode != 0:
                 rows.append((n, ids, f, desc, "DOES NOT BUILD", b.stdout[-300:]))
                 continue
-            t = sh("cd /repo && go test -vet=off -count=1 -timeout 120s ./... 2>&1 | tail -1", env=dict(os.environ, GOFLAGS="-mod=mod", GOPROXY="off", GOSUMDB="off", GOTOOLCHAIN="local"))
+            t = sh("cd /tmp/mutrepo && go test -vet=off -count=1 -timeout 120s ./... 2>&1 | tail -1", env=dict(os.environ, GOFLAGS="-mod=mod", GOPROXY="off", GOSUMDB="off", GOTOOLCHAIN="local"))
             suite = "suite passes" if t.stdout.startswith("ok") else "SUITE FAILS"
             verdicts = []
             for cid in ids.split():
-                r = sh("cd /verif && ./check.sh %s quick" % cid)
+                race = "race" if cid in ("C05", "C20") else ""
+                sh("DEVREPO=/tmp/mutrepo DEVROOT=/tmp/mutroot /verif/dev.sh %s" % race)
+                r = sh("VERIF_ROOT=/tmp/mutroot /tmp/mutroot/bin/vrun check %s quick" % cid)
                 kind = re.search(r"kind=(\S+)", r.stdout)
                 verdicts.append("%s:exit%d%s" % (cid, r.returncode, (" " + kind.group(1)) if kind else ""))
             rows.append((n, ids, f, desc, suite, " ".join(verdicts)))
         finally:
-            sh("git -C /repo checkout -- . && git -C /repo clean -fdq")
+            sh("git -C /tmp/mutrepo checkout -- . && git -C /tmp/mutrepo clean -fdq")
         print(rows[-1], flush=True)
     with open("/verif/selfcheck/RESULTS.md", "a" if filt else "w") as out:
         out.write("# Self-validation with single-site mutants (%s)\n\n" % time.strftime("%Y-%m-%d %H:%M"))
